@@ -45,7 +45,13 @@ fn fill24(v: &mut Vec<(String, String, String)>, facts: &mut Vec<(String, i128)>
     let mut growths = 0i128;
     let mut sample: Vec<Entity<ArchZ>> = Vec::new();
     for i in 0..LIMIT {
-        let e = w.arch_z.create((CompY {},));
+        let e = match catch(|| w.arch_z.create((CompY {},))) {
+            Ok(e) => e,
+            Err(c) => {
+                fail(v, "C12", "create-refused-below-limit", format!("create panicked with '{}' at len {} (capacity {}), below the limit of 16777216", c.msg, w.arch_z.len(), w.arch_z.capacity()));
+                return;
+            }
+        };
         let (k, g) = e.into_any().raw();
         let slot = (k >> 8) as usize;
         if slot >= LIMIT || seen[slot] || g == 0 || (k & 0xFF) != 42 {
